@@ -88,6 +88,37 @@ class Ctx:
             self.stats['functions_inspected'].add(f.name)
 
 
+class SubCtx:
+    """view of a Ctx that re-labels the rules of another property's module (shared sub-rules)"""
+
+    def __init__(self, ctx, old, new):
+        self._ctx, self._old, self._new = ctx, old, new
+
+    def __getattr__(self, k):
+        return getattr(self._ctx, k)
+
+    def _r(self, s):
+        return s.replace(self._old, self._new) if isinstance(s, str) else s
+
+    def ok(self, rule, key, *a, **kw):
+        return self._ctx.ok(self._r(rule), self._r(key), *a, **kw)
+
+    def bad(self, rule, key, *a, **kw):
+        return self._ctx.bad(self._r(rule), self._r(key), *a, **kw)
+
+    def verdict(self, cond, rule, key, *a, **kw):
+        return self._ctx.verdict(cond, self._r(rule), self._r(key), *a, **kw)
+
+    def sres(self, cond, rule, key, *a, **kw):
+        return self._ctx.sres(cond, self._r(rule), self._r(key), *a, **kw)
+
+    def anchor_lost(self, rule, anchor, detail=''):
+        return self._ctx.anchor_lost(self._r(rule), anchor, detail)
+
+    def fn(self, crate, suffix, rule=None):
+        return self._ctx.fn(crate, suffix, self._r(rule))
+
+
 def read_known():
     known, fixed = {}, []
     if os.path.exists(KNOWN):
